@@ -173,6 +173,17 @@ fn check_roundtrip(block: &Block, receipts: &[Vec<Receipt>]) -> Result<(), Viola
                 };
                 return Err(viol(format!("roundtrip:receipt:{kind}:{cls}{extra}"), format!("{kind} receipt field {p}: original {x}, after the round trip {y}")));
             }
+            // fuel-tx's `PartialEq` for receipts ignores the raw `data` and the panic
+            // `contract_id` (the digest stands in for the data); the round trip has to
+            // keep them all the same
+            if a.data() != b.data() {
+                return Err(viol(format!("roundtrip:receipt:{}:data", receipt_kind(a)), format!("{} receipt data: original {:?}, after the round trip {:?}", receipt_kind(a), a.data(), b.data())));
+            }
+            if let (Receipt::Panic { contract_id: x, .. }, Receipt::Panic { contract_id: y, .. }) = (a, b) {
+                if x != y {
+                    return Err(viol("roundtrip:receipt:Panic:contract_id", format!("Panic receipt contract_id: original {x:?}, after the round trip {y:?}")));
+                }
+            }
         }
     }
     Ok(())
